@@ -10,7 +10,7 @@ def needs(notes):
         if re.match(r"^\s*(#+|\*\*)", l):
             if on:
                 break
-            if re.search(r"(?i)manifest|needs|takes|show up|to trigger", l):
+            if re.search(r"(?i)manifest|needs|takes|show up|to trigger", l) and not re.match(r"^\s*#\s", l):
                 on = True
                 # text after a bold heading on the same line
                 t = re.sub(r"^\s*\*\*[^*]*\*\*:?", "", l).strip() if l.lstrip().startswith("**") else ""
